@@ -17,6 +17,7 @@ var bootstrapRows = map[string]string{
 	"eager-create": "exactly the post-processors that are not LazyInit are created through the factory, in that order, each once; a LazyInit one is taken as registered",
 	"chain-active": "when a post-processor is created, every post-processor ordered before it is already in the dispatch list (it processes the later ones)",
 	"managed":      "the entry of a created post-processor is the factory-managed instance when that is a post-processor, the registered object otherwise",
+	"phases":       "every factory post-processor has run before the definition scan starts (a scanner may get its settings there, and a factory post-processor that asks the factory for components finds no definitions yet and creates nothing), and the scan is through before any post-processor is sorted or created",
 	"error":        "a failing factory post-processor, definition scan or creation ends the bootstrap with a non-nil error and nothing further happens; otherwise the result is nil",
 }
 
@@ -625,6 +626,23 @@ func bootstrapTable(c *core.Ctx, s *bootstrapSubject, maxLen int) (rs rows, runs
 				rs.hit("error")
 				if isErr != wantErr || len(after) != 0 {
 					rs.fail("error", w)
+				}
+				rs.hit("phases")
+				phase := 0 // 0 factory post-processors, 1 scan, 2 sorting and creation
+				for _, e := range trace {
+					switch {
+					case strings.HasPrefix(e, "factory-pp("):
+						if phase > 0 {
+							rs.fail("phases", w)
+						}
+					case e == "scan":
+						if phase > 1 {
+							rs.fail("phases", w)
+						}
+						phase = 1
+					case e == "sort" || strings.HasPrefix(e, "create("):
+						phase = 2
+					}
 				}
 				// expected creations, in sorted (= reversed) order
 				var wantCreate []string
